@@ -7,7 +7,7 @@ The instance is scoped: `open ProcToy` to use it.
 -/
 
 namespace ProcToy
-open AGP Proc
+open AGP AGP.Ctl Proc
 
 scoped instance instFnsRat : Fns Rat where
   abs x := if x < 0 then -x else x
